@@ -103,8 +103,14 @@ class Ctx:
         return self.tier == "thorough"
 
     def scale(self, quick: int, thorough: int) -> int:
-        """Per-shard case budget."""
-        return thorough if self.thorough else quick
+        """Per-shard case budget (thorough budgets are multiplied by RV_THOROUGH_DEPTH, default 4)."""
+        if not self.thorough:
+            return quick
+        try:
+            depth = max(1, int(os.environ.get("RV_THOROUGH_DEPTH", "4")))
+        except ValueError:
+            depth = 4
+        return thorough * depth
 
     def case(self, cls: Any, spec: Any, nontrivial: bool = True) -> None:
         self.evaluations += 1
